@@ -56,12 +56,21 @@ def instances(tier, seed):
     for i in lwe:
         i.name = "c06s_" + i.name
         i.core = i.core and i.params["base2k"] == 12
-    return uniform_instances() + normal_instances() + lwe
+    c19 = importlib.import_module("c19")
+    glwe = [i for i in c01.glwe_instances() if i.params["n"] == 2 and i.params["out_base2k"] == i.params["base2k"]]
+    for i in glwe:
+        i.name = "c06s_" + i.name
+        i.core = i.core and i.params["k"] == 12
+    seeds = [i for i in c19.enc_instances() if "gglwe" in i.name]
+    for i in seeds:
+        i.name = "c06s_" + i.name
+        i.core = "b12_k36_ds2_dn1_r21_sym1" in i.name
+    return uniform_instances() + normal_instances() + lwe + glwe + seeds
 
 
 META = {
-    "bounds": "base2k 1..63 for the uniform digit kernel; Gaussian kernels: bound in [1,2^62), 0..2 rejections; error position: base2k in {3,12,17,50,52}, k up to 3 limbs",
-    "outside": "statistics (empirical sigma, uniformity as a frequency), ChaCha8 / ziggurat themselves, seed branching (Source::branch: real ChaCha needs cpuid, unsupported), information flow through encryption (needs the DFT products; DESIGN §2.4)",
+    "bounds": "GLWE encrypt->decrypt on Module<Probe> (N=2): decryption error == sampled error exactly (shapes of C01); compressed GGLWE: per-cell mask seeds pairwise distinct (stream model of C19); base2k 1..63 for the uniform digit kernel; Gaussian kernels: bound in [1,2^62), 0..2 rejections; error position: base2k in {3,12,17,50,52}, k up to 3 limbs",
+    "outside": "statistics (empirical sigma, uniformity as a frequency), ChaCha8 / ziggurat themselves, the other key-material encryptors (switching / automorphism / tensor / GGSW / public / blind-rotation keys), non-interference of plaintext and secret with the mask as a two-run statement",
     "assumptions": ["Source::next_u64n replaced by a stub drawing one arbitrary word (its 4-line body is read, not executed)", "Gaussian draw replaced by an arbitrary f64 through the real generic znx_*_dist_f64_ref; the *_normal_* copies of that loop are covered for position/scale only"],
     "stubs": ["poulpy_hal::source::Source::next_u64n", "znx_fill_normal_f64_ref / znx_add_normal_f64_ref (position harness only)"],
 }
